@@ -11,6 +11,17 @@ NOTE = ("Trusted base: the frozen effect / identity tables in kdverif (one reaso
         "the value-level behaviour of the property (see DESIGN.md section 4, 'N' lists).")
 
 CLAIMS = {
+    "C14": ("polynomial bound facts with clamp case-splits, dimensional (axis-unit) analysis, def-use identity of recorded parameters, paired-operation path rules, pattern isomorphism, rational-function identity",
+            "Decides: for the 10 offset draws of the crop / erase transforms, lo >= 0 and hi - 1 + extent <= image dimension "
+            "as polynomial facts (max/min case-split, dominating branch conditions), row offsets paired with height, column "
+            "offsets with width; a dimensional analysis of KDRandomResizedCrop.get_params (W, H, ratio = W/H) types every "
+            "assignment / comparison and the result (H, W, H, W), covering the central-crop fallback's aspect convention; "
+            "every geometric value recorded in ctx is the same variable version that is passed to the applied crop in the "
+            "matching argument position, and no recorded object lives on the transform; in every semseg transform image and "
+            "mask pass through the same operation with identical geometry arguments and no re-drawn geometry reaches one "
+            "member without the other; Unpatchify* patterns mirror Patchify* up to axis renaming with matching ctx keys; "
+            "denormalize(normalize(x)) simplifies to x for both norms. Output sizes / interpolation / float equality are "
+            "not decided."),
     "C01": ("escape / def-use analysis of the per-sample context, pairing rules on the fuse / un-fuse loops, index-form normalisation, sibling tokenisers",
             "Decides in ModeWrapper: the context given to the loaders is a dict created in the same invocation (None when none "
             "is propagated), dominates the loader loop, is never stored on self, and is the object returned with return_ctx; "
